@@ -215,6 +215,20 @@ BUILTIN_NAMES = {"float", "int", "len", "min", "max", "abs", "pow", "isinstance"
                  "super", "repr", "id", "iter", "next", "divmod", "slice"}
 
 
+def _written_outside_constructor(module: str, cls: str, name: str) -> bool:
+    from .effects import frame_of
+    mi = source.load_module(module)
+    cdef = mi.classes.get(cls)
+    if cdef is None:
+        return True
+    for st in cdef.body:
+        if isinstance(st, ast.FunctionDef) and st.name != "__init__":
+            f = frame_of(module, cls, st.name)
+            if name in f["stores"] or f"{name}[...]" in f["stores"]:
+                return True
+    return False
+
+
 # --------------------------------------------------------------------------- the interpreter
 class Interp:
     def __init__(self, script=None, registry=None, externals=None, loop_specs=None, config=None, block_specs=None):
@@ -564,6 +578,11 @@ class Interp:
                 v.attrs[name] = val
                 return val
             if v.rest == "stale":
+                # an attribute the contract's pre-state does not declare.  If some method other than the constructor writes it (or stores
+                # into it), it is state that survives between calls: Stale (reading it is a failed frame obligation).  If only the
+                # constructor sets it, it is a constant of the object the contract does not know about: not judged (undecided).
+                if v.cls and v.module and not _written_outside_constructor(v.module, v.cls, name):
+                    raise Undecided(f"{v.label}.{name}: attribute not declared in the contract's pre-state (written by the constructor only)")
                 val = Stale(f"{v.label}.{name}", owner=v.label)
                 v.attrs[name] = val
                 return val
